@@ -54,6 +54,9 @@ def parse(prefix, out):
 
 def job(prop, qu, shard, tier, exclude):
     timeout = qu["timeout"][tier] if isinstance(qu["timeout"], dict) else qu["timeout"]
+    # the declared budgets were sized on an idle 16-core machine (measured CPU <= 35% of the budget); CrossHair's budget is
+    # wall-clock, so leave room for a machine that is shared with other checks
+    timeout = timeout * float(os.environ.get("VF_TSCALE", "2"))
     if os.environ.get("VF_TMAX"):
         timeout = min(timeout, float(os.environ["VF_TMAX"]))
     args = [prop, qu["name"], json.dumps(shard, sort_keys=True), "--timeout", str(timeout)]
